@@ -13,10 +13,12 @@ LEVEL = "exploration"
 RULE = ("case = (kind, surface form, written fields, reference date, time of day); weekdays x days of month 1-31 x all "
         "366 day+month pairs x all part-of-day forms against the 28-year cycle (thorough: every date for weekdays and "
         "days of month, +-1 day around each anniversary and all month/leap boundaries for day+month; quick: boundaries + "
-        "seeded sample) at boundary times of day (for parts of day: their own start hour +-1 minute). non-trivial = "
+        "seeded sample; weekday + day of month: every 13th/29th/30th/31st of 2016-2031 as the written pair, reference dates on, "
+        "one day, 200 and 366 days after it) at boundary times of day (for parts of day: their own start hour +-1 minute). non-trivial = "
         "resolution returned and a rule fired; distinct on (kind, form, reference time).")
 ASSUMPTIONS = ["configuration D (timeout=0)",
-               "conventions as stated: weekday / day of month equal to today's rolls to the next one; day+month equal to today's stays",
+               "conventions as stated: weekday / day of month equal to today's rolls to the next one; day+month equal to today's stays; "
+               "weekday + day of month equal to today's stays (the code's scan starts at the reference time)",
                "a part of day resolves to the date of its next start strictly after the reference minute (the library's own part-of-day table gives the start hour)"]
 
 
@@ -82,6 +84,25 @@ def gen_cases(tier, seed):
                 t = G.DOY_FORMS[fn](d, m)
                 if t:
                     cases.append({"k": "doy", "d": d, "m": m, "fn": fn, "f": t, "ts": C.iso(C.at(r.choice(bd), r.choice(tods)))})
+    # weekday + day of month ('friday 13th'): the nearest date from the reference date on (today included - the convention of
+    # the code) that has BOTH written fields; such a pairing can be absent for up to 14 months (friday 13th: 2001-07-13 ->
+    # 2002-09-13; monday 31st: 2001-12-31 -> 2003-03-31), so reference dates right after an occurrence are enumerated
+    wd_en = ("monday", "tuesday", "wednesday", "thursday", "friday", "saturday", "sunday")
+    wd_de = ("montag", "dienstag", "mittwoch", "donnerstag", "freitag", "samstag", "sonntag")
+    from datetime import timedelta as _td
+    occ = []
+    d0 = date(2016, 1, 1)
+    while d0 < date(2032, 1, 1):
+        if d0.day in (13, 29, 30, 31) and (tier == "thorough" or (d0.toordinal() + seed) % 3 == 0):
+            occ.append(d0)
+        d0 += _td(days=1)
+    for d0 in occ:
+        for off in (0, 1, 200, 366):
+            k += 1
+            n, i = d0.day, d0.weekday()
+            w = (wd_en, wd_de)[k % 2][i]
+            t = [("%s %s" % (w, G.ord_en(n))), "%s der %d." % (w, n), "%s %d." % (w, n), "%s the %s" % (w, G.ord_en(n))][k % 4]
+            cases.append({"k": "dowdom", "dow": i, "d": n, "f": t, "ts": C.iso(C.at(d0 + _td(days=off), tods[k % 3]))})
     # parts of day: boundary times are read from the library's own table in the worker
     pdates = [date(2019, 12, 31), date(2020, 2, 28), date(2020, 2, 29), date(2021, 3, 10), date(2023, 4, 30), date(2024, 12, 31)]
     for f, pod in G.POD_FORMS.items():
@@ -135,6 +156,11 @@ def run_case(case, ctx):
     elif kind == "doy":
         e = cal.next_doy_from(ref, case["m"], case["d"])
         exp = V.T(e.year, e.month, e.day)
+    elif kind == "dowdom":
+        e = ref
+        while not (e.day == case["d"] and e.weekday() == case["dow"]):      # day-by-day calendar scan, at most ~3 years
+            e += timedelta(days=1)
+        exp = V.T(e.year, e.month, e.day)
     else:
         h0 = L.pod_hours[case["pod"]][0]
         st = datetime(ref.year, ref.month, ref.day, h0 % 24, 0)
@@ -155,6 +181,8 @@ def run_case(case, ctx):
             what = "impossible-date"
         elif gd < ref:
             what = "before-reference"
+        elif kind == "dowdom" and (gd.day != case["d"] or gd.weekday() != case["dow"]):
+            what = "written-weekday-or-day-not-preserved"
         elif kind == "dom" and gd.day != case["d"]:
             what = "written-day-not-preserved"
         elif kind == "doy" and (gd.month, gd.day) != (case["m"], case["d"]):
@@ -176,7 +204,7 @@ def post_check(results, summaries, events, rules, tier):
     if not events.get("api_return"):
         yield ("inconclusive", "API monitor observed no call")
     need = ["ruleLatentDOM", "ruleLatentDOW", "ruleLatentDOY", "ruleLatentPOD", "ruleEarlyLatePOD", "ruleDOM1", "ruleDOM2",
-            "ruleDDMM", "ruleMMDD", "ruleDOMMonth", "ruleDOMMonth2", "ruleMonthDOM"]
+            "ruleDDMM", "ruleMMDD", "ruleDOMMonth", "ruleDOMMonth2", "ruleMonthDOM", "ruleDOWDOM"]
     silent = [n for n in need if not rules.get(n)]
     if silent:
         yield ("inconclusive", "rules never observed to fire: %s" % silent)
